@@ -278,6 +278,33 @@ def check(ctx):
                    f"{norm(sub)} is evaluated for every cell, but {norm(srcs[0])} is the empty list for a blank cell (the missing value of a "
                    f"string column, an empty object element): rendering raises IndexError", clause="rendering never raises, for every dtype and missing value")
     ctx.note(f"first-line accesses on split cells: {n_first}")
+    # a cell is cut when it CONTAINS a line boundary, not only when splitlines() gives more than one line: "abc\n" is one
+    # line for splitlines() and two physical lines on the screen.  The cut condition therefore compares the cell with its
+    # first line / its joined lines; counting lines alone misses a trailing terminator.
+    vts2 = repo.fn(f"{VEC}.to_strings")
+    from ..forms import expand as _exp20b
+    n_cut = 0
+    for tnode in [n for n in body_nodes(vts2.node) if isinstance(n, ast.If)]:
+        tt = norm(_exp20b(vts2, tnode.test, tnode.test, keep=tuple(x.id for x in ast.walk(tnode.test) if isinstance(x, ast.Name))))
+        counts = [c for c in ast.walk(tnode.test) if isinstance(c, ast.Compare) and isinstance(c.left, ast.Call) and norm(c.left.func) == "len"
+                  and c.left.args and isinstance(c.left.args[0], ast.Name)]
+        lines_vars = []
+        for c in counts:
+            ds = _dr20(vts2, c.left.args[0].id, c)
+            if ds and all(d.value is not None and isinstance(d.value, ast.Call) and isinstance(d.value.func, ast.Attribute)
+                          and d.value.func.attr == "splitlines" for d in ds):
+                lines_vars.append((c.left.args[0].id, norm(ds[0].value.func.value)))
+        for lv, cell in lines_vars:
+            n_cut += 1
+            whole = any(isinstance(c, ast.Compare) and len(c.ops) == 1 and isinstance(c.ops[0], (ast.NotEq, ast.Eq))
+                        and {norm(c.left), norm(c.comparators[0])} & {cell}
+                        and any(lv in norm(x) for x in (c.left, c.comparators[0])) for c in ast.walk(tnode.test))
+            ctx.ob("SIB-pad", vts2, f"cut condition {norm(tnode.test)[:70]}", tnode, whole,
+                   "the cell is compared with its first line / joined lines: any line boundary, a trailing one included, cuts it" if whole else
+                   f"the cell is cut only when len({lv}) > 1: a cell with a single line boundary at its END (\"abc\\n\") is one line for "
+                   f"splitlines(), keeps its terminator and is rendered over two physical lines -- the block has more lines than rows and "
+                   f"lines of different width", clause="multi-line string ... one line per row; within a block all lines have the same display width")
+    ctx.note(f"line-count cut conditions in to_strings: {n_cut}")
 
     # -------------------------------------------------------------- GRD-null
     geo = repo.cls(GEO)
